@@ -57,7 +57,7 @@ impl MState {
             banks: (0..8).map(|b| bank_pattern(b, salt)).collect(),
             ay_selected: 3,
             ay_regs: [0x11, 0x02, 0x33, 0x04, 0x55, 0x06, 0x07, 0x38, 0x0F, 0x10, 0x0B, 0x44, 0x55, 0x0E, 0x00, 0x00],
-            port_fe: salt % 8,
+            port_fe: salt % 8, // last value written to port FE: low three bits are the border
             kempston: false,
             mouse: false,
             eilast: false,
